@@ -910,3 +910,35 @@ where
     T: Eq,
 {
 }
+
+/// Snapshot of the internal node arena of a [`PrefixMap`], only available with the (off by
+/// default) cargo feature `verif-hooks`. Used by external verification tooling; read-only.
+#[cfg(feature = "verif-hooks")]
+#[derive(Debug, Clone, PartialEq, Eq)]
+pub struct VerifArena {
+    /// number of slots in the node arena (slot 0 is the root)
+    pub arena_len: usize,
+    /// the free list (indices of slots available for reuse)
+    pub free: Vec<usize>,
+    /// the cached entry counter, as reported by `len()`
+    pub count: usize,
+    /// for each slot: (left child, right child, has a value)
+    pub slots: Vec<(Option<usize>, Option<usize>, bool)>,
+}
+
+#[cfg(feature = "verif-hooks")]
+impl<P: Prefix, T> PrefixMap<P, T> {
+    /// Read-only snapshot of the node arena, the free list and the entry counter.
+    pub fn verif_arena(&self) -> VerifArena {
+        let nodes = self.table.as_ref();
+        VerifArena {
+            arena_len: nodes.len(),
+            free: self.free.clone(),
+            count: self.len(),
+            slots: nodes
+                .iter()
+                .map(|n| (n.left, n.right, n.value.is_some()))
+                .collect(),
+        }
+    }
+}
